@@ -139,6 +139,7 @@ unsigned lookup_component(const Components& compon, const f8String& name);
 void binary_report();
 string bintoaschex(const string& from);
 uint32_t group_hash(const MessageSpec& p1);
+bool same_group(const MessageSpec& p1, const MessageSpec& p2);
 const MessageSpec *find_group(const CommonGroupMap& globmap, int& vers, unsigned tp, uint32_t key);
 void generate_group_traits(const FieldSpecMap& fspec, const MessageSpec& ms, const string& gname, const string& prefix, ostream& outp);
 void generate_export( ostream& to, const string& ns );
@@ -670,7 +671,10 @@ unsigned parse_groups(MessageSpec& ritr, const string& name,
                   CommonGroupMap::iterator cgitr(globmap.find(fs_itr->first));
                   if (cgitr == globmap.end())
                      cgitr = globmap.insert(make_pair(fs_itr->first, CommonGroups())).first;
-                  const uint32_t hv(group_hash(gresult.first->second));
+                  uint32_t hv(group_hash(gresult.first->second));
+                  // the hash only suggests sharing: a different definition that collides with a key in use takes the next free key
+                  for (CommonGroups::const_iterator cgc; (cgc = cgitr->second.find(hv)) != cgitr->second.end()
+                     && !same_group(cgc->second, gresult.first->second); ++hv);
                   gresult.first->second._hash = hv;
                   cgitr->second.insert(make_pair(hv, gresult.first->second));
                   CommonGroups::iterator cghitr(cgitr->second.find(hv));
@@ -1552,6 +1556,16 @@ uint32_t group_hash(const MessageSpec& p1)
       result = rothash(result, group_hash(pp.second));
 
    return result;
+}
+
+//-------------------------------------------------------------------------------------------------
+bool same_group(const MessageSpec& p1, const MessageSpec& p2)
+{
+   const Presence& f1(p1._fields.get_presence()), & f2(p2._fields.get_presence());
+   return f1.size() == f2.size() && p1._groups.size() == p2._groups.size()
+      && equal(f1.begin(), f1.end(), f2.begin(), [](const FieldTrait& a, const FieldTrait& b) { return a._fnum == b._fnum; })
+      && equal(p1._groups.begin(), p1._groups.end(), p2._groups.begin(), [](const GroupMap::value_type& a, const GroupMap::value_type& b)
+         { return a.first == b.first && same_group(a.second, b.second); });
 }
 
 //-------------------------------------------------------------------------------------------------
